@@ -266,6 +266,7 @@ def run(chk):
         rich_h = {"x-amz-meta-a": "1", "x-amz-meta-b-c": "two", "x-amz-tagging": "t=1&u=2", "Content-Type": "text/x-rich", "Content-Encoding": "identity", "Cache-Control": "no-cache",
                   "Content-Disposition": "inline", "Content-Language": "en", "Expires": "Thu, 01 Jan 2032 00:00:00 GMT",
                   "x-amz-checksum-crc32": __import__("base64").b64encode((__import__("zlib").crc32(b"rich object body") & 0xffffffff).to_bytes(4, "big")).decode()}
+        cl.req("PUT", "/bk1/richdir/", body=b"", headers={"x-amz-meta-kind": "dir"})
         rr0_ = cl.req("PUT", "/bk1/rich", body=b"rich object body", headers=rich_h)
         chk.tie("the object with every kind of attribute is stored", rr0_.status == 200, "%d %s" % (rr0_.status, rr0_.code))
         r0_ = cl.req("POST", "/bk1/rich-mp", query={"uploads": ""}, headers=rich_h); ruid = r0_.xml().findtext("UploadId") if r0_.status == 200 and r0_.xml() is not None else ""
@@ -274,6 +275,8 @@ def run(chk):
                                        ("CopyObject(rich->itself,REPLACE)", "PUT", "/bk1/rich", {}, {"x-amz-copy-source": "bk1/rich", "x-amz-metadata-directive": "REPLACE", "x-amz-meta-a": "1", "x-amz-meta-z": "9"}),
                                        ("CopyObject(rich->other-bucket)", "PUT", "/bk2/rich-copy", {}, {"x-amz-copy-source": "bk1/rich"}),
                                        ("UploadPartCopy(rich)", "PUT", "/bk1/rich-mp", {"partNumber": "1", "uploadId": ruid}, {"x-amz-copy-source": "bk1/rich"}),
+                                       ("UploadPartCopy(directory object)", "PUT", "/bk1/rich-mp", {"partNumber": "2", "uploadId": ruid}, {"x-amz-copy-source": "bk1/richdir/"}),
+                                       ("CopyObject(directory object->key)", "PUT", "/bk1/rich-fromdir", {}, {"x-amz-copy-source": "bk1/richdir/"}),
                                        ("ListParts(rich-mp)", "GET", "/bk1/rich-mp", {"uploadId": ruid}, {}),
                                        ("GetObjectAttributes(rich)", "GET", "/bk1/rich", {"attributes": ""}, {"x-amz-object-attributes": "ETag,Checksum,ObjectParts,StorageClass,ObjectSize"}),
                                        ("HeadObject(rich,checksum)", "HEAD", "/bk1/rich", {}, {"x-amz-checksum-mode": "ENABLED"}),
